@@ -345,15 +345,14 @@ func VerifC10History(k int, mcap int, pre int, nset int) {
 			// initialisation) and a fresh Store object is opened on the same path
 			countChannel = make(chan int, 10)
 			go countGenerator(countChannel)
-			// ids issued before the restart to messages that are gone are out of the new process's
-			// sight; the live ones must still never be handed out again
+			// the new process cannot know which ids its predecessor handed out to messages that have
+			// left since: "never reused" is asked of the ids the current process issues; that a
+			// new id never collides with a message still in the mailbox is part of the comparison
+			// with the reference after every step (ids, order, content)
 			ref.sinceRestart = 0
 			ref.restartStep = step
 			for _, nm := range names {
 				ref.issued[nm] = nil
-				for _, m := range ref.boxes[nm] {
-					ref.issued[nm] = append(ref.issued[nm], m.id)
-				}
 			}
 			st2, nerr := New(cfg, host)
 			vrf.Assert("reopen-noerr", nerr == nil)
